@@ -115,13 +115,13 @@ def da_encs(chk, tag=""):
     return encs, R, T
 
 
-def kernel_encs(chk, kind, tune=True):
+def kernel_encs(chk, kind, tune=True, late=False):
     """transition (symbolic epoch type through the real lax.cond), start_epoch, end_epoch"""
     rec = {}
     with K.stub_blackjax(rec):
-        k = K.make_kernel(kind) if kind != "mh" else K.make_kernel("mh", tune=tune)
+        k = K.make_kernel(kind, late=late) if kind != "mh" else K.make_kernel("mh", tune=tune, late=late)
         ks0 = K.example_kernel_state(kind, k)
-        name = kind + ("" if tune else "_notune")
+        name = kind + ("" if tune else "_notune") + ("_late" if late else "")
 
         def trans(key, ks, st, etype, tie):
             out = k.transition(key, ks, st, K.epoch_state(etype, tie))
@@ -255,9 +255,9 @@ def main():
 
     # ------------------------------------------------------------ the kernels
     kinds = ["rw", "mh", "iwls", "hmc", "nuts"]
-    for kind in kinds:
-        k, sks, et, tie, e_tr, e_st, e_en, rec = kernel_encs(chk, kind)
-        nm = type(k).__name__
+    for kind, late in [(kd, False) for kd in kinds] + [(kd, True) for kd in kinds]:
+        k, sks, et, tie, e_tr, e_st, e_en, rec = kernel_encs(chk, kind, late=late)
+        nm = type(k).__name__ + (" (constants assigned after construction)" if late else "")
         chk.functions += [f"liesel.goose.{type(k).__module__.split('.')[-1]}.{nm}.transition/_adaptive_transition/_standard_transition/start_epoch/end_epoch"]
         kin = ksd(sks)
         rng_ok = [et >= 0, et <= 4, tie >= 0, kin["step_size"] > 0]
